@@ -876,7 +876,7 @@ func ruleTreeSearchCost(c *Ctx, r *R) {
 		n := 0
 		var cmpCall *ssa.Call
 		instrs(sn, func(b *ssa.BasicBlock, i int, in ssa.Instruction) {
-			if call, ok := in.(*ssa.Call); ok && strings.HasSuffix(path(call.Call.Value), ".compare") {
+			if call, ok := in.(*ssa.Call); ok && isComparatorValue(call.Call.Value) {
 				n++
 				cmpCall = call
 			}
@@ -1023,6 +1023,31 @@ func ruleTreeSearchCost(c *Ctx, r *R) {
 		}
 		walk(f)
 		r.ok(reach, treeRel+"."+n+"|uses-searchNode", f.Pos(), n+" must locate keys through searchNode (the function whose comparison count is bounded)")
+		// ... and through searchNode only: a comparator call anywhere else on the lookup's way (a re-check of the key the
+		// cursor landed on, a seek primitive's strictness test) is a comparison on top of the at most 15 per level
+		var extra *ssa.Call
+		for g := range seen {
+			if fname(g) == "searchNode" {
+				continue
+			}
+			instrs(g, func(_ *ssa.BasicBlock, _ int, in ssa.Instruction) {
+				call, ok := in.(*ssa.Call)
+				if !ok || call.Call.IsInvoke() {
+					return
+				}
+				if _, isFn := call.Call.Value.(*ssa.Function); isFn {
+					return
+				}
+				if isComparatorValue(call.Call.Value) && (extra == nil || call.Pos() < extra.Pos()) {
+					extra = call
+				}
+			})
+		}
+		pos := f.Pos()
+		if extra != nil {
+			pos = extra.Pos()
+		}
+		r.ok(extra == nil, treeRel+"."+n+"|compares-only-in-searchNode", pos, n+" calls the comparator outside searchNode: with a full node on every level that is more than 15 comparisons per level")
 	}
 }
 
